@@ -42,17 +42,18 @@ const prop = "C03"
 
 // known-finding ids (see /verif/findings.d/c03.json)
 const (
-	fForElse   = "C03-vfor-on-else-member"             // chosen v-else-if / v-else member carrying v-for renders nothing
-	fForIf     = "C03-vfor-on-if-member"               // falsy v-if member carrying v-for: following v-else-if (and its v-else) dropped
-	fForSkip   = "C03-vfor-member-after-chosen-branch" // v-else-if chosen; a later member with v-for runs as a loop of its own and lets the v-else render too
-	fForIfPre  = "C03-vfor-on-if-member-vpre-tail"     // truthy v-if member carrying v-for: a later member with v-pre is emitted too
-	fClassSne  = "C03-class-object-strict-inequality"  // :class="{k: a !== b}" leaves k out where v-if="a !== b" holds
-	fClassNil  = "C03-class-object-nil-adds-class"     // :class="{k: x}" adds k for nil / undefined x
-	fClassStr  = "C03-class-object-string-reparsed"    // :class="{k: x}" drops k for strings like "0", " "
-	fShowChain = "C03-vshow-on-chain-member-ignored"   // v-show on an element that also carries v-if / v-else(-if) is ignored
+	fForElse   = "C03-vfor-on-else-member"               // chosen v-else-if / v-else member carrying v-for renders nothing
+	fForIf     = "C03-vfor-on-if-member"                 // falsy v-if member carrying v-for: following v-else-if (and its v-else) dropped
+	fForSkip   = "C03-vfor-member-after-chosen-branch"   // v-else-if chosen; a later member with v-for runs as a loop of its own and lets the v-else render too
+	fForIfPre  = "C03-vfor-on-if-member-vpre-tail"       // truthy v-if member carrying v-for: a later member with v-pre is emitted too
+	fClassNot  = "C03-class-object-negation-no-fallback" // :class="{k: !x}" has no negation workaround for non-bool / stack-only operands
+	fClassSne  = "C03-class-object-strict-inequality"    // :class="{k: a !== b}" leaves k out where v-if="a !== b" holds
+	fClassNil  = "C03-class-object-nil-adds-class"       // :class="{k: x}" adds k for nil / undefined x
+	fClassStr  = "C03-class-object-string-reparsed"      // :class="{k: x}" drops k for strings like "0", " "
+	fShowChain = "C03-vshow-on-chain-member-ignored"     // v-show on an element that also carries v-if / v-else(-if) is ignored
 )
 
-var allFindings = []string{fClassSne, fForElse, fForIf, fForIfPre, fForSkip, fClassNil, fClassStr, fShowChain}
+var allFindings = []string{fClassSne, fClassNot, fForElse, fForIf, fForIfPre, fForSkip, fClassNil, fClassStr, fShowChain}
 
 func openFindings() map[string]bool {
 	f := kf.Load()
@@ -202,23 +203,34 @@ func TestProp(t *testing.T) {
 			continue
 		}
 		c := TruthCase{Val: v}
-		if ex := excludedPositions(v, open); len(ex) > 0 {
+		ex := excludedPositions(v, open)
+		if !run.Thorough() && v.S == "7" {
+			// quick tier: the third sample of every numeric kind runs the plain-name positions only
+			for _, p := range positionNames()[basePositionCount:] {
+				if _, out := ex[p]; !out {
+					ex[p] = ""
+				}
+			}
+		}
+		if len(ex) > 0 {
 			for _, p := range positionNames() {
 				if id, out := ex[p]; out {
-					rec.Excluded(id)
+					if id != "" {
+						rec.Excluded(id)
+					}
 				} else {
 					c.Pos = append(c.Pos, p)
 				}
 			}
 		}
 		nt, cls := classifyTruth(c)
-		rec.Count("B:position-renders", len(positions)-len(excludedPositions(v, open)))
+		rec.Count("B:position-renders", len(positions)-len(ex))
 		if !run.Each(rec, "table", c, nt, cls, checkTruth) {
 			ok = false
 		}
 	}
 	if ok {
-		rec.Exhaustive(fmt.Sprintf("truthiness table: %d values (every scalar kind and width, strings, nil, missing, pointers, slices, maps, structs) x %d positions (%d on the plain name, up to 7 for each of %d operand forms: paths, a loop variable shadowing a root variable of the opposite truthiness, variables named like template functions, booleans written as === / !== / == / != comparisons)", len(table), len(positions), basePositionCount, len(allForms())))
+		rec.Exhaustive(fmt.Sprintf("truthiness table: %d values (every scalar kind and width, strings, nil, missing, pointers, slices, maps, structs) x %d positions (%d on the plain name, up to 8 for each of %d operand forms: paths, promoted fields of embedded structs, a loop variable shadowing a root variable of the opposite truthiness, variables named like template functions, booleans written as === / !== / == / != comparisons)", len(table), len(positions), basePositionCount, len(allForms())))
 	}
 
 	// ---- Family A: chain shapes x truth assignments x separators x siblings x placements x member decorations
